@@ -249,6 +249,10 @@ class C19(Engine):
                     off = rng.pick([-4, -8, -32768, -2 if wd <= 2 else -4, -1 if wd == 1 else -4, 0, 4, 32764])
                     d = (a & 0xffff0000) + 0x8000 + 4 * rng.below(64)
                     plan["ops"].append({"op": "simstep", "addr": a, "imm": 0, "rel": [mn, wd, sg, off, d, list(rng.bytes(4))]})
+                elif cpu not in NO_SET_PC and rng.chance(1, 5):
+                    # run into a breakpoint: the address given to break is in the same units as every other address
+                    n = rng.range(2, 6)
+                    plan["ops"].append({"op": "breakrun", "addr": a, "imms": [rng.below(1 << bits) for _ in range(n)], "k": rng.range(1, n - 1)})
                 elif cpu in SIMW and rng.chance(1, 3):
                     # what the simulator stores is what print shows afterwards - also at the top and bottom of the 64 KiB space
                     d = rng.pick([0xffff, 0xfffe, 0xff00, 0x240 + rng.below(64), 0x3c0 + rng.below(64)])
@@ -353,6 +357,14 @@ class C19(Engine):
         # instruction bytes for simstep ops come from the real assembler (separate lifetime)
         sim_bytes = {}
         for i, op in enumerate(plan["ops"]):
+            if op["op"] == "breakrun":
+                src = ".%s\n.org 0\n" % cpu + "".join("  %s\n" % (SIM[cpu][0] % v) for v in op["imms"])
+                o = ex.call(build_request(MODE_ASM, ["naken_asm", "-type", "bin", "-o", "i.bin", "a.asm"], {"/sim/w/a.asm": src.encode()}))
+                res.absorb(o)
+                digests.append(o.digest())
+                for p, k, d in o.delta:
+                    if p == "/sim/w/i.bin" and k == 0 and len(d) == SIM[cpu][4] * len(op["imms"]):
+                        sim_bytes[i] = d
             if op["op"] == "simstep":
                 tmpl = SIM[cpu][0]
                 src = ".%s\n.org 0\n  %s\n" % (cpu, tmpl % op["imm"])
@@ -509,6 +521,24 @@ class C19(Engine):
                     expect.append(("none", None))
                     console.append("step")
                 expect.append(("simstep", (a, op["imm"], len(blob))))
+            elif op["op"] == "breakrun":
+                if i not in sim_bytes or (load and load.get("endian")):
+                    continue
+                blob = sim_bytes[i]
+                a = op["addr"]
+                ilen = SIM[cpu][4]
+                bp = a + op["k"] * ilen // bpa
+                console.append("write 0x%x %s" % (a, " ".join("0x%02x" % b for b in blob)))
+                expect.append(("write", (1, a, list(blob))))
+                touch(a * bpa, len(blob))
+                console.append("break 0x%x" % bp)
+                expect.append(("none", None))
+                console.append("set pc=0x%x" % a)
+                expect.append(("none", None))
+                console.append("run")
+                expect.append(("breakrun", (bp, op["imms"][op["k"] - 1])))
+                console.append("break")
+                expect.append(("none", None))
             elif op["op"] == "bad":
                 console.append(op["line"])
                 expect.append(("bad", op["line"]))
@@ -722,6 +752,20 @@ class C19(Engine):
                     res.probe("bad_command_rejected")
                 else:
                     res.probe("bad_command_other_output")
+            elif kind == "breakrun":
+                bp, want = payload
+                tmpl, bits, rre, pcre, _ = SIM[cpu]
+                mh = re.search(r"Breakpoint hit at 0x([0-9a-f]+)", joined)
+                if not mh:
+                    res.viol("breakrun:breakpoint-not-hit:%s" % cpu, cmd=console[idx - 3:idx + 1], tail=joined[-300:])
+                    continue
+                if int(mh.group(1), 16) != bp:
+                    res.viol("breakrun:hit-at-other-address:%s" % cpu, want="%x" % bp, got=mh.group(1))
+                regs = re.findall(rre, joined)
+                if regs and int(regs[-1], REG_RADIX.get(cpu, 16)) != want:
+                    res.viol("breakrun:stopped-after-another-instruction:%s" % cpu, want="%x" % want, got=regs[-1], cmd=console[idx - 3:idx + 1])
+                res.probe("breakrun_checked")
+                res.probe("breakrun_checked:" + cpu)
             elif kind == "simstore":
                 a, d, v, ilen = payload
                 m = re.search(r"^.! 0x([0-9a-f]+):", joined, re.M)
